@@ -87,7 +87,12 @@ class ChaosGen(G.QGen):
             inner = ("test", self.singular() if R.random() < 0.5 else self.query(depth, nofilter=True, maxseg=1))
             if not deep and R.random() < 0.3:
                 inner = ("test", self.any_call(depth + 1))
-            k = R.choice(["not", "paren", "not-paren", "cmp", "and", "or"])
+            k = R.choice(["not", "paren", "not-paren", "cmp", "and", "or", "paren", "paren-paren"])
+            if k in ("paren", "paren-paren") and not deep and R.random() < 0.6:
+                # a parenthesised call is a LogicalType paren-expr whatever the call returns
+                inner = ("test", self.any_call(depth + 1))
+            if k == "paren-paren":
+                return ("paren", ("paren", inner))
             if k == "not":
                 return ("not", inner)
             if k == "paren":
@@ -203,7 +208,7 @@ def ledger_cells(q, reg, cells):
 
 def plan(tier, seed, nproc, scale):
     shards = nproc if tier == "quick" else nproc * 4
-    n = int((50000 if tier == "quick" else 800000) * scale)
+    n = int((120000 if tier == "quick" else 1200000) * scale)
     return [{"kind": "random", "seed": "%d/%d" % (seed, i), "n": n // shards, "shard": i, "shards": shards} for i in range(shards)]
 
 
